@@ -208,6 +208,11 @@ def r5(c):
     sel = q.select_sites(f)
     okf = len(sel) == 1 and sorted(x.callee if x else '' for x in sel[0]['futures']) == sorted(['tokio::time::sleep::sleep_until', CL + '::fail_requests'])
     c.ob('fail_requests_for/raced', okf, 'the wait is sleep_until(deadline) raced with fail_requests()', '', loc_of(f))
+    if okf:
+        # unconditionally: every way through fail_requests_for passes that race (an early return for some delay value would let a
+        # caller whose attempt is synchronous - the serial open - loop without ever waiting or looking at the queue)
+        oka, leak = q.always_passes(f, f.entry, {sel[0]['poll_fn'].node})
+        c.ob('fail_requests_for/always-waits', oka, 'no path through fail_requests_for skips the race (whatever the duration)', 'returns reachable without it: %s' % [loc_of(f, n_[1]) for n_ in leak], loc_of(f))
     fr = P.fn(CL + '::fail_requests')
     nx = one(fr.calls(CL + '::fail_next_request'), 'fail_next_request')
     c.ob('fail_requests/loop', fr.in_cycle(nx.node), 'fail_requests keeps failing requests until the state changes', '', nx.loc())
